@@ -333,3 +333,103 @@ Proof. intros Hn Hi. rewrite (prv_val Hn Hi). destruct (Nat.eq_dec i 0); lia. Qe
 
 Lemma nxt_props n i : 2 <= n -> i < n -> nxt n i < n /\ nxt n i <> i.
 Proof. intros Hn Hi. rewrite (nxt_val Hn Hi). destruct (Nat.eq_dec (i + 1) n); lia. Qed.
+
+(* ---------------------------------------------------------------- guarded parabola (repaired NumPy) *)
+Lemma gparab_some v0 v1 v2 d : parab v0 v1 v2 = Some d -> gparab v0 v1 v2 = Some d.
+Proof. intros H. unfold gparab. rewrite H. reflexivity. Qed.
+
+Lemma par_some g v0 v1 v2 d : parab v0 v1 v2 = Some d -> par g v0 v1 v2 = Some d.
+Proof. destruct g; cbn [par]; [apply gparab_some | exact (fun H => H)]. Qed.
+Arguments gparab_some [v0 v1 v2 d] _.
+Arguments par_some g [v0 v1 v2 d] _.
+
+(* the repaired parabola is total ... *)
+Lemma gparab_total v0 v1 v2 : exists d, gparab v0 v1 v2 = Some d.
+Proof. unfold gparab. destruct (parab v0 v1 v2) as [d|]; eexists; reflexivity. Qed.
+
+(* ... and is the torch parabola *)
+Lemma gparab_tparab v0 v1 v2 : gparab v0 v1 v2 = Some (tparab v0 v1 v2).
+Proof. unfold gparab, parab, tparab. destruct (Qeq_bool _ 0); reflexivity. Qed.
+
+(* ---------------------------------------------------------------- argmax with -inf entries *)
+Definition olt (a b : option Q) : Prop :=
+  match a, b with
+  | _, None => False
+  | None, Some _ => True
+  | Some x, Some y => (x < y)%Q
+  end.
+Definition ole (a b : option Q) : Prop :=
+  match a, b with
+  | None, _ => True
+  | Some _, None => False
+  | Some x, Some y => (x <= y)%Q
+  end.
+
+Lemma oltb_spec a b : oltb a b = true <-> olt a b.
+Proof.
+  destruct a as [x|], b as [y|]; cbn [oltb olt]; try (apply Qltb_spec);
+    (split; [try discriminate; auto | try tauto; auto]).
+Qed.
+
+Lemma oltb_false a b : oltb a b = false <-> ole b a.
+Proof.
+  destruct a as [x|], b as [y|]; cbn [oltb ole]; try (apply Qltb_false);
+    (split; [try discriminate; auto | try tauto; auto]).
+Qed.
+
+Lemma ole_refl a : ole a a.
+Proof. destruct a; cbn; [apply Qle_refl | exact I]. Qed.
+
+Lemma ole_trans a b c : ole a b -> ole b c -> ole a c.
+Proof.
+  destruct a as [x|], b as [y|], c as [z|]; cbn; auto; try tauto. apply Qle_trans.
+Qed.
+
+Lemma olt_ole a b : olt a b -> ole a b.
+Proof. destruct a as [x|], b as [y|]; cbn; auto. apply Qlt_le_weak. Qed.
+
+Lemma olt_not_ole a b : olt a b -> ole b a -> False.
+Proof. destruct a as [x|], b as [y|]; cbn; auto. intros H1 H2. exact (Qlt_not_le _ _ H1 H2). Qed.
+
+Lemma argmaxo_lt f n : 0 < n -> argmaxo f n < n.
+Proof.
+  induction n as [|k IH]; intros H; [lia|]. cbn [argmaxo].
+  destruct k as [|k]; [cbn [argmaxo]; destruct (oltb _ _); lia|].
+  destruct (oltb _ _); [lia|]. assert (argmaxo f (S k) < S k) by (apply IH; lia). lia.
+Qed.
+
+Lemma argmaxo_max f n i : i < n -> ole (f i) (f (argmaxo f n)).
+Proof.
+  induction n as [|k IH]; intros H; [lia|]. cbn [argmaxo].
+  destruct (oltb (f (argmaxo f k)) (f k)) eqn:E.
+  - apply oltb_spec in E. destruct (Nat.eq_dec i k) as [->|Hne]; [apply ole_refl|].
+    apply ole_trans with (f (argmaxo f k)); [apply IH; lia | apply olt_ole; exact E].
+  - apply oltb_false in E. destruct (Nat.eq_dec i k) as [->|Hne]; [exact E|]. apply IH. lia.
+Qed.
+
+Lemma argmaxo_unique f n j :
+  j < n -> (forall i, i < n -> i <> j -> olt (f i) (f j)) -> argmaxo f n = j.
+Proof.
+  intros Hj H. destruct (Nat.eq_dec (argmaxo f n) j) as [E|E]; [exact E|]. exfalso.
+  assert (L : olt (f (argmaxo f n)) (f j)) by (apply H; [apply argmaxo_lt; lia | exact E]).
+  exact (olt_not_ole _ _ L (argmaxo_max f Hj)).
+Qed.
+
+Definition uniq_maxo (nr nc : nat) (c : nat -> nat -> option Q) (p q : nat) : Prop :=
+  p < nr /\ q < nc /\
+  forall k l, k < nr -> l < nc -> (k, l) <> (p, q) -> olt (c k l) (c p q).
+
+Lemma argmax2o_unique nr nc c p q : uniq_maxo nr nc c p q -> argmax2o nr nc c = (p, q).
+Proof.
+  intros (Hp & Hq & H). unfold argmax2o.
+  destruct (flat_index p Hq) as [D Mo].
+  assert (A : argmaxo (flato nc c) (nr * nc) = p * nc + q).
+  { apply argmaxo_unique; [nia|]. intros i Hi Hne. unfold flato. rewrite D, Mo.
+    assert (Hnc : nc <> 0) by lia.
+    apply H.
+    - apply Nat.div_lt_upper_bound; [exact Hnc | lia].
+    - apply Nat.mod_upper_bound. exact Hnc.
+    - intros C. inversion C as [[C1 C2]]. apply Hne.
+      rewrite (Nat.div_mod i nc Hnc), C1, C2. lia. }
+  rewrite A, D, Mo. reflexivity.
+Qed.
